@@ -374,7 +374,9 @@ class SgzConverter(SgzReader):
             self._set_variant_header_padding(True)
             self.read_variant_headers(include_padding=True)
             written_offsets = set()
-            for k, header_array in self.variant_headers.items():
+            for k in self.stored_header_keys:
+                # Arrays are stored in header-word table order, whatever order they were loaded in
+                header_array = self.variant_headers[k]
                 # Header fields which duplicate one another share a stored array, write each array once
                 if self.segy_traceheader_template[k] in written_offsets:
                     continue
